@@ -6,12 +6,16 @@ package PKGNAME
 // validation against the real build.
 
 import (
+	"context"
 	"encoding/json"
+	"errors"
 	"fmt"
 	"os"
 	"reflect"
+	"runtime"
 	"sort"
 	"strings"
+	"time"
 	"unsafe"
 )
 
@@ -41,6 +45,17 @@ func vLoadReplay(path string) error {
 	vReplay = vReplayT{}
 	vFailed, vUnmet, vNotes = nil, 0, nil
 	vPost = map[string]uint64{}
+	// let goroutines released by the previous replay exit before taking the baseline
+	last := -1
+	for i := 0; i < 40; i++ {
+		n := runtime.NumGoroutine()
+		if n == last {
+			break
+		}
+		last = n
+		time.Sleep(5 * time.Millisecond)
+	}
+	vBaseGoroutines = runtime.NumGoroutine()
 	return json.Unmarshal(b, &vReplay)
 }
 
@@ -53,6 +68,10 @@ func vU64(name string) uint64 { return vVal(name) }
 func vInt(name string) int    { return int(vVal(name)) }
 func vBool(name string) bool  { return vVal(name) != 0 }
 func vSymLen(name string) int { return int(vVal(name)) }
+
+func vU8N(prefix string, k int) uint8   { return uint8(vVal(fmt.Sprintf("%s%d", prefix, k))) }
+func vU16N(prefix string, k int) uint16 { return uint16(vVal(fmt.Sprintf("%s%d", prefix, k))) }
+func vBoolN(prefix string, k int) bool  { return vVal(fmt.Sprintf("%s%d", prefix, k)) != 0 }
 
 func vArrGet(name string, i uint64) uint8 {
 	a, ok := vReplay.Arrays[name]
@@ -228,6 +247,40 @@ func vIteBool(c bool, a, b bool) bool {
 func vAnd(a, b bool) bool     { return a && b }
 func vOr(a, b bool) bool      { return a || b }
 func vImplies(a, b bool) bool { return !a || b }
+
+// vStop ends the path: the harness's stated bound is reached.
+type vStopped struct{ why string }
+
+func vStop(why string) { panic(vStopped{why}) }
+
+// vCancelReleased: every context derived by the code under test so far has
+// been cancelled again.  Natively this is observed through goroutine
+// accounting: the watcher goroutines blocked on such a context are gone.
+func vCancelReleased() bool {
+	for i := 0; i < 100; i++ {
+		if runtime.NumGoroutine() <= vBaseGoroutines {
+			return true
+		}
+		time.Sleep(5 * time.Millisecond)
+	}
+	return false
+}
+
+// vSettle gives a freshly woken goroutine time to run (native only; the
+// engine's environment model runs it at the moment of cancellation).
+func vSettle() { time.Sleep(20 * time.Millisecond) }
+
+// native stand-ins for the event-order intrinsics: event order is a property
+// of the SSA event structure and has no native observation
+func vEventBefore(a, b string) bool { return true }
+func vGoCount() int                 { return 1 }
+
+var vBaseGoroutines int
+
+// vIsErrOf: err is the (non-nil) error of ctx.
+func vIsErrOf(err error, ctx context.Context) bool {
+	return err != nil && ctx.Err() != nil && errors.Is(err, ctx.Err())
+}
 
 func vNote(s string) { vNotes = append(vNotes, s) }
 func vEventCount(s string) int {
